@@ -65,7 +65,7 @@ Definition token_line_d (m : omap) (d : N) : N :=
 
 (* ------------------------------------------------------------------ doctree *)
 Inductive ntag :=
-| NDoc | NSection | NTitle | NRubric | NTarget | NFootnote | NFootRef | NSysMsg
+| NDoc | NSection | NTitle | NRubric (level : N) | NTarget | NFootnote | NFootRef | NSysMsg
 | NAdm | NDiv | NElement | NLiteral | NGen (k : N).
 
 Inductive node := Node (tag : ntag) (payload : str) (line : option N) (kids : list node).
@@ -296,130 +296,180 @@ Section Nest.
     match ts with TFrontMatter _ _ :: r => r | _ => ts end.
 
   (* ---------------------------------------------------------------- the renderer as written *)
-  Fixpoint render_tok (f : nat) (s : st) (t : tok) {struct f} : res st :=
-    match f with
-    | O => Raise OutOfFuel
-    | S f' =>
-      let render_children := fun (s : st) (ks : list tok) => fold_res (render_tok f') s ks in
-      (* self._render_tokens(tokens) *)
-      let render_tokens := fun (s : st) (ts : list tok) =>
-        fold_res (render_tok f') s (map (shift_tok 1) ts) in
-      (* nested_render_text(text, lineno, inline, temp_root_node, heading_offset) *)
-      let nested_render_text :=
-        fun (s : st) (text : str) (lineno : N) (inline : bool) (temp_root_node : option loc)
-            (heading_offset : N) =>
-          let '(toks0, e') := if inline then PI (s_env (shr s)) text
-                              else P (s_env (shr s)) (text ++ nl) in
-          let s1 := set_shr (set_env e' (shr s)) s in
-          let toks := map (shift_tok lineno) (drop_front_matter toks0) in
-          (* _restore() *)
-          let current_heading_offset := hoff s1 in
-          let s2 := set_hoff heading_offset s1 in
-          let current_level_to_section := lmap s2 in
-          let current_root_node := troot s2 in
-          let s3 := match temp_root_node with Some _ => set_troot temp_root_node s2 | None => s2 end in
-          do s4 <- render_tokens s3 toks;
-          let s5 := set_hoff current_heading_offset s4 in
-          Ok (match temp_root_node with
-              | Some _ => set_lmap current_level_to_section (set_troot current_root_node s5)
-              | None => s5
-              end) in
-      (* MockState(renderer, state_machine, lineno) *)
-      let mock_state := fun (lineno : N) =>
-        {| cb_nested_parse := fun (block : list str) (input_offset : nat) (n : node) (s : st) =>
-             (* match_titles=False for the admonitions *)
-             with_detached s n (fun s =>
-               nested_render_text s (join nl block) (lineno + N.of_nat input_offset) false None 0);
-           cb_inline_text := fun (text : str) (ln : N) (s : st) =>
-             (* MockInliner.parse: parse into a temporary nodes.Element() *)
-             do r <- with_detached s (Node NElement [] None []) (fun s =>
-                       nested_render_text s text ln true None 0);
-             Ok (node_kids (fst r), snd r) |} in
-      (* run_directive(name, first_line, content, position) -> nodes *)
-      let run_directive :=
-        fun (s : st) (name first_line content : str) (position : N) =>
-          match dir_lookup name with
-          | None => Ok ([sysmsg name position], s)                (* Unknown directive type *)
-          | Some (kind, cls) =>
-              match parse_directive_text cls first_line content with
-              | Raise _ => Ok ([sysmsg name position], s)         (* except MarkupError *)
-              | Ok p =>
-                  let '(attrs, warns) := opt_validate name (p_optblock p) in
-                  let ws := map (fun w => sysmsg w position) warns
-                            ++ (if p_warn_split p then [sysmsg [] position] else [])
-                            ++ (if p_warn_content p then [sysmsg [] position] else []) in
-                  do s1 <- extend_cur s ws;
-                  do r <-
-                    match kind with
-                    | KAdm titled =>
-                        adm_run st (mock_state position) titled name (p_args p) attrs
-                                (p_body p) (p_off p) position s1
-                    | KInclude =>
-                        (* MockIncludeDirective.run (file insertion enabled, no slicing options) *)
-                        match p_args p with
-                        | [] => Raise IndexError
-                        | a :: _ =>
-                            match fs_read a with
-                            | None => Ok (DError 4 a, s1)
-                            | Some file_content =>
-                                let '(literal, ho) := include_opts (p_optblock p) in
-                                let file_content := join nl (splitlines file_content) in
-                                if literal then Ok (DNodes [Node NLiteral file_content (Some 1) []], s1)
-                                else do s2 <- nested_render_text s1 file_content (0 + 1) false None ho;
-                                     Ok (DNodes [], s2)
-                            end
-                        end
-                    | KOther =>
-                        let '(ns, h) := other_directive name (p_args p) (p_optblock p) (p_body p)
-                                          (p_off p) position (shr s1) in
-                        Ok (DNodes ns, set_shr h s1)
-                    end;
-                  match fst r with
-                  | DNodes ns => Ok (ns, snd r)
-                  | DError level msg =>            (* except DirectiveError *)
-                      Ok ([Node NSysMsg msg (Some position) [Node NLiteral content None []]], snd r)
-                  end
+  (* Open recursion: [rec] is "render one token" one level of fuel down. *)
+  Section Step.
+    Variable rec : st -> tok -> res st.
+
+    Definition render_children (s : st) (ks : list tok) : res st := fold_res rec s ks.
+
+    (* self._render_tokens(tokens): line numbers become 1-based, then every token is rendered *)
+    Definition render_tokens_ (s : st) (ts : list tok) : res st :=
+      fold_res rec s (map (shift_tok 1) ts).
+
+    (* nested_render_text(text, lineno, inline, temp_root_node, heading_offset) *)
+    Definition nested_render_text (s : st) (text : str) (lineno : N) (inline : bool)
+        (temp_root_node : option loc) (heading_offset : N) : res st :=
+      let '(toks0, e') := if inline then PI (s_env (shr s)) text
+                          else P (s_env (shr s)) (text ++ nl) in
+      let s1 := set_shr (set_env e' (shr s)) s in
+      let toks := map (shift_tok lineno) (drop_front_matter toks0) in
+      (* _restore() *)
+      let current_heading_offset := hoff s1 in
+      let s2 := set_hoff heading_offset s1 in
+      let current_level_to_section := lmap s2 in
+      let current_root_node := troot s2 in
+      let s3 := match temp_root_node with Some _ => set_troot temp_root_node s2 | None => s2 end in
+      do s4 <- render_tokens_ s3 toks;
+      let s5 := set_hoff current_heading_offset s4 in
+      Ok (match temp_root_node with
+          | Some _ => set_lmap current_level_to_section (set_troot current_root_node s5)
+          | None => s5
+          end).
+
+    (* MockState(renderer, state_machine, lineno) *)
+    Definition mock_state (lineno : N) : callbacks st :=
+      {| cb_nested_parse := fun (block : list str) (input_offset : nat) (n : node) (s : st) =>
+           (* match_titles=False for the admonitions *)
+           with_detached s n (fun s =>
+             nested_render_text s (join nl block) (lineno + N.of_nat input_offset) false None 0);
+         cb_inline_text := fun (text : str) (ln : N) (s : st) =>
+           (* MockInliner.parse: parse into a temporary nodes.Element() *)
+           do r <- with_detached s (Node NElement [] None []) (fun s =>
+                     nested_render_text s text ln true None 0);
+           Ok (node_kids (fst r), snd r) |}.
+
+    Definition directive_warnings (p : parsed) (warns : list str) (position : N) : list node :=
+      map (fun w => sysmsg w position) warns
+      ++ (if p_warn_split p then [sysmsg [] position] else [])
+      ++ (if p_warn_content p then [sysmsg [] position] else []).
+
+    Definition directive_error (msg content : str) (position : N) : node :=
+      Node NSysMsg msg (Some position) [Node NLiteral content None []].
+
+    (* MockIncludeDirective.run (file insertion enabled, no slicing options) *)
+    Definition include_run (s : st) (p : parsed) : res (dout * st) :=
+      match p_args p with
+      | [] => Raise IndexError
+      | a :: _ =>
+          match fs_read a with
+          | None => Ok (DError 4 a, s)
+          | Some file_content =>
+              let '(literal, ho) := include_opts (p_optblock p) in
+              let file_content := join nl (splitlines file_content) in
+              if literal then Ok (DNodes [Node NLiteral file_content (Some 1) []], s)
+              else do s2 <- nested_render_text s file_content (0 + 1) false None ho;
+                   Ok (DNodes [], s2)
+          end
+      end.
+
+    (* run_directive(name, first_line, content, position) -> nodes *)
+    Definition run_directive (s : st) (name first_line content : str) (position : N)
+      : res (list node * st) :=
+      match dir_lookup name with
+      | None => Ok ([sysmsg name position], s)                (* Unknown directive type *)
+      | Some (kind, cls) =>
+          match parse_directive_text cls first_line content with
+          | Raise _ => Ok ([sysmsg name position], s)         (* except MarkupError *)
+          | Ok p =>
+              let '(attrs, warns) := opt_validate name (p_optblock p) in
+              do s1 <- extend_cur s (directive_warnings p warns position);
+              do r <-
+                match kind with
+                | KAdm titled =>
+                    adm_run st (mock_state position) titled name (p_args p) attrs
+                            (p_body p) (p_off p) position s1
+                | KInclude => include_run s1 p
+                | KOther =>
+                    let '(ns, h) := other_directive name (p_args p) (p_optblock p) (p_body p)
+                                      (p_off p) position (shr s1) in
+                    Ok (DNodes ns, set_shr h s1)
+                end;
+              match fst r with
+              | DNodes ns => Ok (ns, snd r)
+              | DError level msg => Ok ([directive_error msg content position], snd r)
               end
-          end in
-      (* render_directive(token, name, arguments) *)
-      let render_directive := fun (s : st) (name arguments content : str) (mp : omap) =>
-        do position <- token_line mp;
-        do r <- run_directive s name arguments content position;
-        extend_cur (snd r) (fst r) in
+          end
+      end.
+
+    (* render_directive(token, name, arguments) *)
+    Definition render_directive (s : st) (name arguments content : str) (mp : omap) : res st :=
+      do position <- token_line mp;
+      do r <- run_directive s name arguments content position;
+      extend_cur (snd r) (fst r).
+
+    Definition eval_rst_name : str := [101; 118; 97; 108; 45; 114; 115; 116].  (* "eval-rst" *)
+
+    Definition render_heading (s : st) (lvl : N) (c : str) (mp : omap) (ks : list tok) : res st :=
+      let level := lvl + hoff s in
+      do sc <- seccap s;
+      if negb sc then
+        (* a rubric; generate_heading_target registers the implicit name *)
+        do s1 <- with_node s (Node (NRubric level) c (line_of mp) []) (fun s => render_children s ks);
+        Ok (set_shr (add_name c (shr s1)) s1)
+      else
+        (* update_section_level_state(new_section, level) *)
+        match max_below (lmap s) level None with
+        | None => Raise ValueError                      (* max() of an empty sequence *)
+        | Some parent_level =>
+            match lookup_level (lmap s) parent_level with
+            | None => Raise KeyError
+            | Some parent =>
+                do s0 <- (if (parent_level <? level) && negb (parent_level + 1 =? level)
+                          then extend_cur s [sysmsg c (token_line_d mp 0)] else Ok s);
+                do pn <- get_loc parent (roots s0);
+                let sec := child_loc parent (length (node_kids pn)) in
+                do r1 <- extend_loc parent
+                           [Node NSection c (line_of mp) [Node NTitle c (line_of mp) []]]
+                           (roots s0);
+                let m1 := assign_level (lmap s0) level sec in
+                let m2 := filter (fun kv => fst kv <=? level) m1 in
+                let s1 := set_lmap m2 (set_roots r1 s0) in
+                (* with self.current_node_context(title_node): self.render_children(token) *)
+                do s2 <- render_children (set_cur (child_loc sec 0) s1) ks;
+                Ok (set_cur sec (set_shr (add_name c (shr s2)) s2))
+            end
+        end.
+
+    Definition render_fence (s : st) (colon : bool) (info content : str) (mp : omap) : res st :=
+      let '(name, arguments) := parse_info info in
+      match directive_name name with
+      | Some dn =>
+          if negb colon && str_eqb dn eval_rst_name
+          then
+            let '(ns, h) := eval_rst content (token_line_d mp 0) (shr s) in
+            extend_cur (set_shr h s) ns
+          else
+            let content' := if colon && startswith content colons3 then nl ++ content
+                            else content in
+            render_directive s dn arguments content' mp
+      | None =>
+          if colon then
+            with_node s (Node NDiv name (line_of mp) [])
+                      (fun s => nested_render_text s content (token_line_d mp 0) false None 0)
+          else extend_cur s [Node NLiteral (info ++ nl ++ content) (line_of mp) []]
+      end.
+
+    Definition render_substitution (s : st) (inline : bool) (key : str) (mp : omap) : res st :=
+      do position <- token_line mp;
+      match jinja key with
+      | None => extend_cur s [sysmsg key position]             (* Substitution error *)
+      | Some rendered =>
+          let references := sub_names key in
+          if existsb (fun r => mem_str r (s_subrefs (shr s))) references then
+            extend_cur s [sysmsg key position]                 (* circular substitution *)
+          else
+            let s1 := set_shr (set_subrefs (add_all references (s_subrefs (shr s))) (shr s)) s in
+            do s2 <- nested_render_text s1 rendered position
+                       (inline && negb (is_directive_start rendered)) None 0;
+            Ok (set_shr (set_subrefs (remove_all references (s_subrefs (shr s2))) (shr s2)) s2)
+      end.
+
+    Definition render_step (s : st) (t : tok) : res st :=
       match t with
       | TLeaf k c mp => extend_cur s [Node (NGen k) c (line_of mp) []]
       | TCont k c mp ks => with_node s (Node (NGen k) c (line_of mp) []) (fun s => render_children s ks)
       | TInline ks => render_children s ks
-      | THeading lvl c mp ks =>
-          let level := lvl + hoff s in
-          do sc <- seccap s;
-          if negb sc then
-            (* a rubric; generate_heading_target registers the implicit name *)
-            do s1 <- with_node s (Node NRubric c (line_of mp) []) (fun s => render_children s ks);
-            Ok (set_shr (add_name c (shr s1)) s1)
-          else
-            (* update_section_level_state(new_section, level) *)
-            match max_below (lmap s) level None with
-            | None => Raise ValueError                      (* max() of an empty sequence *)
-            | Some parent_level =>
-                match lookup_level (lmap s) parent_level with
-                | None => Raise KeyError
-                | Some parent =>
-                    do s0 <- (if (parent_level <? level) && negb (parent_level + 1 =? level)
-                              then extend_cur s [sysmsg c (token_line_d mp 0)] else Ok s);
-                    do pn <- get_loc parent (roots s0);
-                    let sec := child_loc parent (length (node_kids pn)) in
-                    do r1 <- extend_loc parent
-                               [Node NSection c (line_of mp) [Node NTitle c (line_of mp) []]]
-                               (roots s0);
-                    let m1 := assign_level (lmap s0) level sec in
-                    let m2 := filter (fun kv => fst kv <=? level) m1 in
-                    let s1 := set_lmap m2 (set_roots r1 s0) in
-                    (* with self.current_node_context(title_node): self.render_children(token) *)
-                    do s2 <- render_children (set_cur (child_loc sec 0) s1) ks;
-                    Ok (set_cur sec (set_shr (add_name c (shr s2)) s2))
-                end
-            end
+      | THeading lvl c mp ks => render_heading s lvl c mp ks
       | TTarget label mp =>
           let '(msgs, h) := note_explicit_target label (token_line_d mp 0) (shr s) in
           extend_cur (set_shr h s) (msgs ++ [Node NTarget label (line_of mp) []])
@@ -431,44 +481,20 @@ Section Nest.
                       (fun s => render_children s ks)
       | TFootRef label mp =>
           extend_cur (set_shr (add_footref label (shr s)) s) [Node NFootRef label (line_of mp) []]
-      | TFence colon info content mp =>
-          let '(name, arguments) := parse_info info in
-          match directive_name name with
-          | Some dn =>
-              if negb colon && str_eqb dn [101; 118; 97; 108; 45; 114; 115; 116]  (* "eval-rst" *)
-              then
-                let '(ns, h) := eval_rst content (token_line_d mp 0) (shr s) in
-                extend_cur (set_shr h s) ns
-              else
-                let content' := if colon && startswith content colons3 then nl ++ content
-                                else content in
-                render_directive s dn arguments content' mp
-          | None =>
-              if colon then
-                with_node s (Node NDiv name (line_of mp) [])
-                          (fun s => nested_render_text s content (token_line_d mp 0) false None 0)
-              else extend_cur s [Node NLiteral (info ++ nl ++ content) (line_of mp) []]
-          end
-      | TSubst inline key mp =>
-          do position <- token_line mp;
-          match jinja key with
-          | None => extend_cur s [sysmsg key position]             (* Substitution error *)
-          | Some rendered =>
-              let references := sub_names key in
-              if existsb (fun r => mem_str r (s_subrefs (shr s))) references then
-                extend_cur s [sysmsg key position]                 (* circular substitution *)
-              else
-                let s1 := set_shr (set_subrefs (add_all references (s_subrefs (shr s))) (shr s)) s in
-                do s2 <- nested_render_text s1 rendered position
-                           (inline && negb (is_directive_start rendered)) None 0;
-                Ok (set_shr (set_subrefs (remove_all references (s_subrefs (shr s2))) (shr s2)) s2)
-          end
+      | TFence colon info content mp => render_fence s colon info content mp
+      | TSubst inline key mp => render_substitution s inline key mp
       | TFrontMatter c mp => extend_cur s [Node (NGen 0) c (line_of mp) []]
-      end
+      end.
+  End Step.
+
+  Fixpoint render_tok (f : nat) (s : st) (t : tok) {struct f} : res st :=
+    match f with
+    | O => Raise OutOfFuel
+    | S f' => render_step (render_tok f') s t
     end.
 
   Definition render_tokens (f : nat) (s : st) (ts : list tok) : res st :=
-    fold_res (render_tok f) s (map (shift_tok 1) ts).
+    render_tokens_ (render_tok f) s ts.
 
   Definition sh0 (e : env) : shared :=
     {| s_env := e; s_names := []; s_footrefs := []; s_subrefs := [] |}.
@@ -495,142 +521,158 @@ Section Nest.
     | [] => Ok ([], h, false)
     | t :: r =>
         do a <- g h t;
-        let '(n1, h1, b1) := a in
-        do b <- den_fold g h1 r;
-        let '(n2, h2, b2) := b in
-        Ok (n1 ++ n2, h2, b1 || b2)
+        do b <- den_fold g (snd (fst a)) r;
+        Ok (fst (fst a) ++ fst (fst b), snd (fst b), snd a || snd b)
     end.
 
   Definition wrap1 (n : node) (r : dres) : dres :=
-    let '(ns, h, b) := r in ([add_kids n ns], h, b).
+    ([add_kids n (fst (fst r))], snd (fst r), snd r).
 
-  Fixpoint den_tok (f : nat) (top : bool) (h : shared) (t : tok) {struct f} : res dres :=
-    match f with
-    | O => Raise OutOfFuel
-    | S f' =>
-      let den_children := fun (top : bool) (h : shared) (ks : list tok) =>
-        den_fold (den_tok f' top) h ks in
-      let den_tokens := fun (top : bool) (h : shared) (ts : list tok) =>
-        den_fold (den_tok f' top) h (map (shift_tok 1) ts) in
-      let den_text := fun (top : bool) (h : shared) (text : str) (lineno : N) (inline : bool) =>
-        let '(toks0, e') := if inline then PI (s_env h) text else P (s_env h) (text ++ nl) in
-        den_tokens top (set_env e' h) (map (shift_tok lineno) (drop_front_matter toks0)) in
-      let mock_state := fun (lineno : N) =>
-        {| cb_nested_parse := fun (block : list str) (input_offset : nat) (n : node) (h : shared) =>
-             do r <- den_text false h (join nl block) (lineno + N.of_nat input_offset) false;
-             let '(ns, h', _) := r in Ok (add_kids n ns, h');
-           cb_inline_text := fun (text : str) (ln : N) (h : shared) =>
-             do r <- den_text false h text ln true;
-             let '(ns, h', _) := r in Ok (ns, h') |} in
-      let run_directive :=
-        fun (top : bool) (h : shared) (name first_line content : str) (position : N) =>
-          match dir_lookup name with
-          | None => Ok ([sysmsg name position], h, false)
-          | Some (kind, cls) =>
-              match parse_directive_text cls first_line content with
-              | Raise _ => Ok ([sysmsg name position], h, false)
-              | Ok p =>
-                  let '(attrs, warns) := opt_validate name (p_optblock p) in
-                  let ws := map (fun w => sysmsg w position) warns
-                            ++ (if p_warn_split p then [sysmsg [] position] else [])
-                            ++ (if p_warn_content p then [sysmsg [] position] else []) in
-                  do r <-
-                    match kind with
-                    | KAdm titled =>
-                        do x <- adm_run shared (mock_state position) titled name (p_args p) attrs
-                                  (p_body p) (p_off p) position h;
-                        Ok (fst x, [], snd x, false)
-                    | KInclude =>
-                        match p_args p with
-                        | [] => Raise IndexError
-                        | a :: _ =>
-                            match fs_read a with
-                            | None => Ok (DError 4 a, [], h, false)
-                            | Some file_content =>
-                                let '(literal, ho) := include_opts (p_optblock p) in
-                                let file_content := join nl (splitlines file_content) in
-                                if literal then Ok (DNodes [Node NLiteral file_content (Some 1) []], [], h, false)
-                                else
-                                  (* the included text is rendered into the *current* node: its
-                                     headings make sections when the current node allows it, and
-                                     they are offset by heading-offset: not followed when top *)
-                                  do x <- den_text top h file_content (0 + 1) false;
-                                  let '(ns, h', b) := x in
-                                  Ok (DNodes [], ns, h', b || negb (ho =? 0))
-                            end
-                        end
-                    | KOther =>
-                        let '(ns, h') := other_directive name (p_args p) (p_optblock p) (p_body p)
-                                           (p_off p) position h in
-                        Ok (DNodes ns, [], h', false)
-                    end;
-                  let '(out, direct, h', b) := r in
-                  match out with
-                  | DNodes ns => Ok (ws ++ direct ++ ns, h', b)
-                  | DError level msg =>
-                      Ok (ws ++ direct ++ [Node NSysMsg msg (Some position) [Node NLiteral content None []]], h', b)
-                  end
+  Section DStep.
+    (* top: the node being filled is a document/section (headings would make sections);
+       ho: the heading offset in force *)
+    Variable rec : bool -> N -> shared -> tok -> res dres.
+
+    Definition den_children (top : bool) (ho : N) (h : shared) (ks : list tok) : res dres :=
+      den_fold (rec top ho) h ks.
+
+    (* nested_render_text(text, lineno, inline, heading_offset) into a node of kind [top] *)
+    Definition den_nested (top : bool) (h : shared) (text : str) (lineno : N) (inline : bool)
+        (heading_offset : N) : res dres :=
+      let '(toks0, e') := if inline then PI (s_env h) text else P (s_env h) (text ++ nl) in
+      den_fold (rec top heading_offset) (set_env e' h)
+               (map (shift_tok 1) (map (shift_tok lineno) (drop_front_matter toks0))).
+
+    Definition den_mock_state (lineno : N) : callbacks shared :=
+      {| cb_nested_parse := fun (block : list str) (input_offset : nat) (n : node) (h : shared) =>
+           do r <- den_nested false h (join nl block) (lineno + N.of_nat input_offset) false 0;
+           Ok (add_kids n (fst (fst r)), snd (fst r));
+         cb_inline_text := fun (text : str) (ln : N) (h : shared) =>
+           do r <- den_nested false h text ln true 0;
+           Ok (fst (fst r), snd (fst r)) |}.
+
+    (* (what run() returns, nodes appended directly to the current node, registries, flag) *)
+    Definition den_include (top : bool) (h : shared) (p : parsed)
+      : res (dout * list node * shared * bool) :=
+      match p_args p with
+      | [] => Raise IndexError
+      | a :: _ =>
+          match fs_read a with
+          | None => Ok (DError 4 a, [], h, false)
+          | Some file_content =>
+              let '(literal, iho) := include_opts (p_optblock p) in
+              let file_content := join nl (splitlines file_content) in
+              if literal then Ok (DNodes [Node NLiteral file_content (Some 1) []], [], h, false)
+              else
+                (* the included text is rendered into the *current* node *)
+                do x <- den_nested top h file_content (0 + 1) false iho;
+                Ok (DNodes [], fst (fst x), snd (fst x), snd x)
+          end
+      end.
+
+    Definition den_directive (top : bool) (h : shared) (name first_line content : str)
+        (position : N) : res dres :=
+      match dir_lookup name with
+      | None => Ok ([sysmsg name position], h, false)
+      | Some (kind, cls) =>
+          match parse_directive_text cls first_line content with
+          | Raise _ => Ok ([sysmsg name position], h, false)
+          | Ok p =>
+              let '(attrs, warns) := opt_validate name (p_optblock p) in
+              let ws := directive_warnings p warns position in
+              do r <-
+                match kind with
+                | KAdm titled =>
+                    do x <- adm_run shared (den_mock_state position) titled name (p_args p) attrs
+                              (p_body p) (p_off p) position h;
+                    Ok (fst x, [], snd x, false)
+                | KInclude => den_include top h p
+                | KOther =>
+                    let '(ns, h') := other_directive name (p_args p) (p_optblock p) (p_body p)
+                                       (p_off p) position h in
+                    Ok (DNodes ns, [], h', false)
+                end;
+              let '(out, direct, h', b) := r in
+              match out with
+              | DNodes ns => Ok (ws ++ direct ++ ns, h', b)
+              | DError level msg => Ok (ws ++ direct ++ [directive_error msg content position], h', b)
               end
-          end in
+          end
+      end.
+
+    Definition den_fence (top : bool) (h : shared) (colon : bool) (info content : str) (mp : omap)
+      : res dres :=
+      let '(name, arguments) := parse_info info in
+      match directive_name name with
+      | Some dn =>
+          if negb colon && str_eqb dn eval_rst_name
+          then
+            let '(ns, h') := eval_rst content (token_line_d mp 0) h in Ok (ns, h', false)
+          else
+            let content' := if colon && startswith content colons3 then nl ++ content
+                            else content in
+            do position <- token_line mp;
+            den_directive top h dn arguments content' position
+      | None =>
+          if colon then
+            do r <- den_nested false h content (token_line_d mp 0) false 0;
+            Ok (wrap1 (Node NDiv name (line_of mp) []) r)
+          else Ok ([Node NLiteral (info ++ nl ++ content) (line_of mp) []], h, false)
+      end.
+
+    Definition den_substitution (top : bool) (h : shared) (inline : bool) (key : str) (mp : omap)
+      : res dres :=
+      do position <- token_line mp;
+      match jinja key with
+      | None => Ok ([sysmsg key position], h, false)
+      | Some rendered =>
+          let references := sub_names key in
+          if existsb (fun r => mem_str r (s_subrefs h)) references then
+            Ok ([sysmsg key position], h, false)
+          else
+            let h1 := set_subrefs (add_all references (s_subrefs h)) h in
+            do r <- den_nested top h1 rendered position
+                      (inline && negb (is_directive_start rendered)) 0;
+            Ok (fst (fst r),
+                set_subrefs (remove_all references (s_subrefs (snd (fst r)))) (snd (fst r)),
+                snd r)
+      end.
+
+    Definition den_step (top : bool) (ho : N) (h : shared) (t : tok) : res dres :=
       match t with
       | TLeaf k c mp => Ok ([Node (NGen k) c (line_of mp) []], h, false)
       | TCont k c mp ks =>
-          do r <- den_children false h ks; Ok (wrap1 (Node (NGen k) c (line_of mp) []) r)
-      | TInline ks => den_children top h ks
+          do r <- den_children false ho h ks; Ok (wrap1 (Node (NGen k) c (line_of mp) []) r)
+      | TInline ks => den_children top ho h ks
       | THeading lvl c mp ks =>
           if top then Ok ([], h, true)
           else
-            do r <- den_children false h ks;
-            let '(ns, h', b) := r in
-            Ok ([Node NRubric c (line_of mp) ns], add_name c h', b)
+            do r <- den_children false ho h ks;
+            Ok ([Node (NRubric (lvl + ho)) c (line_of mp) (fst (fst r))],
+                add_name c (snd (fst r)), snd r)
       | TTarget label mp =>
           let '(msgs, h') := note_explicit_target label (token_line_d mp 0) h in
           Ok (msgs ++ [Node NTarget label (line_of mp) []], h', false)
       | TFootDef label mp ks =>
           if mem_strs label (s_names h) then Ok ([sysmsg label (token_line_d mp 0)], h, false)
           else
-            do r <- den_children false (add_name label h) ks;
+            do r <- den_children false ho (add_name label h) ks;
             Ok (wrap1 (Node NFootnote label (line_of mp) []) r)
       | TFootRef label mp => Ok ([Node NFootRef label (line_of mp) []], add_footref label h, false)
-      | TFence colon info content mp =>
-          let '(name, arguments) := parse_info info in
-          match directive_name name with
-          | Some dn =>
-              if negb colon && str_eqb dn [101; 118; 97; 108; 45; 114; 115; 116]
-              then
-                let '(ns, h') := eval_rst content (token_line_d mp 0) h in Ok (ns, h', false)
-              else
-                let content' := if colon && startswith content colons3 then nl ++ content
-                                else content in
-                do position <- token_line mp;
-                run_directive top h dn arguments content' position
-          | None =>
-              if colon then
-                do r <- den_text false h content (token_line_d mp 0) false;
-                Ok (wrap1 (Node NDiv name (line_of mp) []) r)
-              else Ok ([Node NLiteral (info ++ nl ++ content) (line_of mp) []], h, false)
-          end
-      | TSubst inline key mp =>
-          do position <- token_line mp;
-          match jinja key with
-          | None => Ok ([sysmsg key position], h, false)
-          | Some rendered =>
-              let references := sub_names key in
-              if existsb (fun r => mem_str r (s_subrefs h)) references then
-                Ok ([sysmsg key position], h, false)
-              else
-                let h1 := set_subrefs (add_all references (s_subrefs h)) h in
-                do r <- den_text top h1 rendered position
-                          (inline && negb (is_directive_start rendered));
-                let '(ns, h2, b) := r in
-                Ok (ns, set_subrefs (remove_all references (s_subrefs h2)) h2, b)
-          end
+      | TFence colon info content mp => den_fence top h colon info content mp
+      | TSubst inline key mp => den_substitution top h inline key mp
       | TFrontMatter c mp => Ok ([Node (NGen 0) c (line_of mp) []], h, false)
-      end
+      end.
+  End DStep.
+
+  Fixpoint den_tok (f : nat) (top : bool) (ho : N) (h : shared) (t : tok) {struct f} : res dres :=
+    match f with
+    | O => Raise OutOfFuel
+    | S f' => den_step (den_tok f') top ho h t
     end.
 
   Definition den_tokens (f : nat) (top : bool) (h : shared) (ts : list tok) : res dres :=
-    den_fold (den_tok f top) h (map (shift_tok 1) ts).
+    den_fold (den_tok f top 0) h (map (shift_tok 1) ts).
 
   (* the nodes a text denotes when it is parsed and rendered from registries h *)
   Definition den_text (f : nat) (top : bool) (h : shared) (text : str) : res dres :=
